@@ -233,6 +233,10 @@ pub struct Log {
     /// inside a consumer request?
     pub in_request: Cell<bool>,
     pub pulls_outside_request: Cell<usize>,
+    /// client-crash fault: the seam crossing with this sequence number panics (0 = never)
+    pub crash_at: Cell<u64>,
+    /// hand control to the deterministic scheduler at every seam crossing
+    pub yield_on: Cell<bool>,
 }
 
 impl Log {
@@ -242,6 +246,12 @@ impl Log {
     #[inline]
     pub fn ev(&self, kind: u64, a: u64) {
         self.seq.set(self.seq.get() + 1);
+        if self.yield_on.get() {
+            crate::sched::sched_yield(100 + kind as u32);
+        }
+        if self.seq.get() == self.crash_at.get() {
+            panic!("injected client crash at seam crossing {}", self.seq.get());
+        }
         let mut h = self.fp.get();
         h ^= kind.wrapping_mul(0x9E37_79B9_7F4A_7C15) ^ a;
         h = h.wrapping_mul(0x100_0000_01b3).rotate_left(29);
@@ -371,6 +381,7 @@ impl<'a, L: text2num::LangInterpreter> CrashLang<'a, L> {
     fn tick(&self) {
         let n = self.calls.get() + 1;
         self.calls.set(n);
+        crate::sched::sched_yield(200);
         if n == self.crash_at {
             panic!("injected client crash in caller-supplied interpreter at call {n}");
         }
